@@ -11,7 +11,7 @@ NAMES = ("p0", "p1")
 
 class DSim:
     def __init__(self, expected=(None, None), can_dilate=(("ged",), ("ged",)), half=False, app=True, max_links=4,
-                 listen_late=False, stoppable=False, ping_interval=30.0, both_write=False, sides=("aa" * 8, "bb" * 8), peer_inert=False, throttle=False, no_listen=(False, False)):
+                 listen_late=False, stoppable=False, ping_interval=30.0, both_write=False, sides=("aa" * 8, "bb" * 8), peer_inert=False, throttle=False, no_listen=(False, False), silent_after_connect=False):
         self.w = DWorld(sides=sides, expected=expected, can_dilate=can_dilate, ping_interval=ping_interval, no_listen=no_listen)
         self.w.__enter__()
         self.w.inert = peer_inert
@@ -19,6 +19,7 @@ class DSim:
         self.throttle = throttle
         self.half, self.app, self.max_links, self.stoppable, self.both_write = half, app, max_links, stoppable, both_write
         self.peer_inert = peer_inert     # an old peer without dilation support: never starts, never answers
+        self.silent_after_connect = silent_after_connect   # canonical run: the link goes silent after convergence until the leader's monitor gives up
         self.listen_late = listen_late
         self.started = [False, False]
         self.stopped_req = [False, False]
@@ -271,6 +272,13 @@ class DSim:
         if self.throttle:
             return self.canonical_throttled(run, out, net)
         run(net)
+        if self.silent_after_connect:
+            # nothing is delivered while the leader's ping timer expires twice: the monitor disconnects, a new generation follows
+            for _ in range(3):
+                if ("timer",) in self.enabled():
+                    self.do(("timer",))
+                    out.append(("timer",))
+            run(net)
         if self.app:
             for step in (("connect", "p0"), ("listen", "p0"), ("write", "p0")):
                 if step in self.enabled():
@@ -333,7 +341,16 @@ def canonical(cfgname, configs):
     if cfgname not in _canon:
         sim = DSim(**configs[cfgname])
         try:
-            _canon[cfgname] = sim.canonical()
+            tr = sim.canonical()
+            # vacuity guard: an honest run must converge (and, with an application, deliver something)
+            if not sim.peer_inert:
+                st = [s.state() for s in sim.w.sides]
+                if st != ["CONNECTED", "CONNECTED"]:
+                    raise AssertionError("canonical dilation run of config %r ended in %r after %d steps" % (cfgname, st, len(tr)))
+                exp = sim.w._args[1][1]
+                if sim.app and (exp is None or "p0" in exp) and not any(e[1] == "data" for e in sim.w.sides[1].applog):
+                    raise AssertionError("canonical dilation run of config %r delivered no subchannel data" % (cfgname,))
+            _canon[cfgname] = tr
         finally:
             sim.close()
     return _canon[cfgname]
@@ -459,4 +476,96 @@ def make_jobs(cls, tier, kq, kt, stepq=6, stept=3):
         step = stept if thorough else stepq
         for lo in range(0, n + 1, step):
             J.append(cls(cfg, lo, min(lo + step, n + 1), k))
+    return J
+
+
+class DRandomPrefixMixin:
+    """deepening (thorough tier): checkpoints reached by pseudo-random legal schedules (seeded, reproducible); the suffix of k free
+    steps is still explored exhaustively under the solver and judged by the same oracle"""
+    batch = ()
+    plen = 30
+
+    def gen_prefix(self, sim, seed):
+        import random
+        rnd = random.Random(seed)
+        n = rnd.randrange(8, self.plen + 1)
+        out = []
+        for _ in range(n):
+            acts = self.free_actions(sim)
+            if not acts:
+                break
+            weights = [1 if a[0] in ("lose", "stop", "refuse", "part") else 3 for a in acts]
+            a = rnd.choices(acts, weights)[0]
+            sim.do(a)
+            out.append(a)
+            if self.violations(sim, "step"):
+                break
+        return out
+
+    def scenario(self):
+        seeds = list(self.batch)
+        seed = seeds[eng().choose(len(seeds), "seed")]
+        sim = DSim(**self.configs[self.cfg])
+        sched = []
+        eng().inputs["rseed"] = seed
+        eng().inputs["sched"] = sched
+        try:
+            self.gen_prefix(sim, seed)
+            if not self._oracle(sim, "prefix"):
+                return
+            for step in range(self.k):
+                acts = self.free_actions(sim)
+                if not acts:
+                    break
+                a = acts[eng().choose(len(acts), "act%d" % step)]
+                sched.append(list(a))
+                sim.do(a)
+                if not self._oracle(sim, "step"):
+                    return
+            sim.settle()
+            self._oracle(sim, "settled")
+            eng().note("nt:explored")
+        finally:
+            sim.close()
+
+    def replay(self, inp, label):
+        sim = DSim(**self.configs[self.cfg])
+        try:
+            pre = self.gen_prefix(sim, inp["rseed"])
+            fails = self.violations(sim, "prefix")
+            for a in inp["sched"]:
+                if fails:
+                    break
+                a = tuple(a)
+                if a not in sim.enabled():
+                    return None
+                sim.do(a)
+                fails = self.violations(sim, "step")
+            if not fails:
+                sim.settle()
+                fails = self.violations(sim, "settled")
+            if fails:
+                return "config %s, pseudo-random checkpoint (seed %d: %r) + %r: %s: %s" % (
+                    self.cfg, inp["rseed"], pre, [tuple(x) for x in inp["sched"]], fails[0][0], fails[0][1])
+            return None
+        finally:
+            sim.close()
+
+
+def make_random_jobs(cls, tier, per_cfg=64, batch=4, k=2, plen=40, base_seed=0):
+    if tier != "thorough":
+        return []
+    import os
+    base = int(os.environ.get("VERIF_SEED", "0") or 0) * 100003 + base_seed
+    rcls = type("Random" + cls.__name__, (DRandomPrefixMixin, cls), {})
+    J = []
+    for cfg in cls.configs:
+        for b in range(0, per_cfg, batch):
+            j = rcls(cfg, 0, 1, k)
+            j.batch = tuple(base + b + i for i in range(batch))
+            j.plen = plen
+            j.name = "drandom_%s_s%d-%d_k%d" % (cfg, j.batch[0], j.batch[-1], k)
+            j.bounds = dict(j.bounds, checkpoints="pseudo-random legal schedules of 8..%d steps, seeds %d..%d" % (plen, j.batch[0], j.batch[-1]))
+            j.must_reach = ()
+            J.append(j)
     return J
